@@ -139,7 +139,8 @@ def plan(tier, seed):
         [{"kind": "exh2", "size": SIZES[tier], "stride": nsh, "offset": i} for i in range(nsh)] + \
         [{"kind": "posjoin", "n": 40 if tier == "quick" else 400, "sub": 300 + i} for i in range(nsh)] + \
         [{"kind": "ix", "n": 150 if tier == "quick" else 1500, "sub": 600 + i} for i in range(nsh)] + \
-        [{"kind": "ixpairs", "reps": 1 if tier == "quick" else 6, "stride": nsh, "offset": i, "sub": 900 + i} for i in range(nsh)]
+        [{"kind": "ixpairs", "reps": 1 if tier == "quick" else 6, "stride": nsh, "offset": i, "sub": 900 + i} for i in range(nsh)] + \
+        [{"kind": "scale", "n": 5 if tier == "quick" else 24, "sub": 1200 + i} for i in range(nsh)]
 
 
 def floors(tier):
@@ -148,7 +149,7 @@ def floors(tier):
             "re:Variable@Comparator\\.L\\.enter": 100, "cache.check.hit": 200, "dedup.call": 500,
             "cls:nvars=3": 100, "cls:nvars=4": 50, "cls:exhaustive_two_variable_tree": 2000,
             "cls:join_through_positional_term_arguments": 200, "cls:preceded_by_an_abandoned_evaluation": 2000, "cls:preceded_by_an_evaluation_under_the_other_caching_switch": 500,
-            "cls:feature_interaction_query": 1500, "ix_atom_pairs_instantiated": 2900, "cls:ix:d_is_the_e": 60, "cls:ix:e_le_sub_an": 60, "cls:ix:exists_an": 60,
+            "cls:feature_interaction_query": 1500, "ix_atom_pairs_instantiated": 2900, "re:cls:scale:.*": 240, "cls:ix:d_is_the_e": 60, "cls:ix:e_le_sub_an": 60, "cls:ix:exists_an": 60,
             "cls:ix:d_in_conc_p": 100, "cls:ix:d_in_conc_esubs": 100, "cls:ix:d_in_conc_psubs": 60, "cls:ix:forall_subs": 60,
             "cls:ix:forall_items_an": 60, "cls:ix:forall_subs_vs_d": 60, "cls:ix:pred_le": 100}
 
@@ -161,6 +162,15 @@ def check_ix_case(case, ctx):
 
 
 def cases(spec, ctx):
+    if spec.get("kind") == "scale":
+        # SIZE: domains of 40-300 objects, joins with more than a thousand candidate rows, self-joins, 5-6 variables, 6-9 operands
+        for i in range(spec["n"]):
+            rng = ctx.rng(spec["sub"], i)
+            case = multi.gen_scale_case(rng, multi.SCALE_FLAVOURS[(spec["sub"] + i) % len(multi.SCALE_FLAVOURS)])
+            case.update({"caching": rng.random() < 0.8, "form": "set_of", "how": "let", "times": rng.choice([2, 3]),
+                         "take_first": rng.choice([0, 0, 2]), "keep_first": False})
+            yield case
+        return
     if spec.get("kind") == "ixpairs":
         # pairwise coverage of the interaction atoms: EVERY ordered pair of atom kinds, `reps` random instantiations each
         from .. import ix
@@ -231,6 +241,8 @@ def check_case(case, ctx):
     ctx.cls(f"cls:nvars={nv}")
     if case.get("exh"):
         ctx.cls("cls:exhaustive_two_variable_tree")
+    if case.get("scale"):
+        ctx.cls("cls:scale:" + case["scale"])
     if case.get("take_first"):
         ctx.cls("cls:preceded_by_an_abandoned_evaluation")
     if case.get("other_switch_first"):
